@@ -432,11 +432,17 @@ impl<'a> VisitMut for Hoister<'a> {
     }
     fn visit_expr_closure_mut(&mut self, _: &mut ExprClosure) {}
 }
-struct OpaqueVisitor { prefix: String, repl: String, hit: Option<String> }
+// `marker`: second-chance matching when the local was renamed - a typed `let` whose initialiser contains the marker text (the replacement is an
+// over-approximation - an arbitrary value of the type - so matching a different statement can only make obligations fail, never pass)
+struct OpaqueVisitor { prefix: String, repl: String, hit: Option<String>, marker: Option<(String, String)> }
 impl VisitMut for OpaqueVisitor {
     fn visit_local_mut(&mut self, l: &mut Local) {
         let whole = norm(l);
-        if self.hit.is_none() && whole.starts_with(&self.prefix) {
+        let matches = match &self.marker {
+            None => whole.starts_with(&self.prefix),
+            Some((ty, m)) => matches!(&l.pat, Pat::Type(pt) if norm(&pt.ty) == *ty) && l.init.as_ref().map(|i| norm(&i.expr).contains(m.as_str())).unwrap_or(false),
+        };
+        if self.hit.is_none() && matches {
             if let Some(init) = &mut l.init {
                 self.hit = Some(fnv(&norm(&init.expr)));
                 let e: Expr = parse_str(&self.repl).unwrap();
@@ -1267,10 +1273,21 @@ fn process_fn(cx: &mut Ctx, vis: &Visibility, sig: &Signature, block: &Block, in
     // R-OPAQUE sites (after the passes, so attributes are already stripped)
     for (f, prefix, repl) in cx.o.opaque.iter() {
         if *f != name { continue; }
+        // "let size : usize~size_of": text after '~' is the marker of the second-chance match
+        let (prefix, marker) = match prefix.split_once('~') { Some((a, b)) => (a.to_string(), Some(b.to_string())), None => (prefix.clone(), None) };
         let pn: String = prefix.split_whitespace().collect::<Vec<_>>().join("");
-        let mut ov = OpaqueVisitor { prefix: pn, repl: repl.clone(), hit: None };
+        let mut ov = OpaqueVisitor { prefix: pn.clone(), repl: repl.clone(), hit: None, marker: None };
         ov.visit_block_mut(&mut block);
-        match ov.hit {
+        let mut hit = ov.hit;
+        if hit.is_none() && cx.o.tolerant {
+            if let (Some(m), Some(ty)) = (marker, pn.split(':').nth(1)) {
+                let mut ov2 = OpaqueVisitor { prefix: pn.clone(), repl: repl.clone(), hit: None, marker: Some((ty.to_string(), m.split_whitespace().collect::<Vec<_>>().join(""))) };
+                ov2.visit_block_mut(&mut block);
+                if ov2.hit.is_some() { cx.degraded.push(format!("{}\topaque-site-by-marker\t{}", name, prefix)); }
+                hit = ov2.hit;
+            }
+        }
+        match hit {
             Some(h) => cx.p.log.push(format!("R-OPAQUE fn {} site '{}' exprhash {}", name, prefix, h)),
             None => cx.errors.push(format!("ANCHOR-LOST opaque site '{}' in fn {}", prefix, name)),
         }
